@@ -383,7 +383,7 @@ func runC01(c *Ctx) {
 	r := c.Res
 	r.Rule = "program with >=1 map call or disabled binding, >=2 jobs, run to completion; distinct by (program, order in which jobs finished)"
 	start := time.Now()
-	nGen, nSched := 300, 2
+	nGen, nSched := 218, 2
 	if c.Thorough {
 		nGen, nSched = 3000, 3
 	}
@@ -396,6 +396,7 @@ func runC01(c *Ctx) {
 	cases := c01ReadCorpus(c.Corpus)
 	cases = append(cases, c01ReadCorpus(filepath.Join(filepath.Dir(c.Corpus), "tiera"))...)
 	nCorpus := len(cases)
+	cases = append(cases, c01Families(c.Rng, c.Thorough)...)
 	optsList := []GenOpts{
 		{},
 		{MaxDepth: 3, MaxCalls: 3},
@@ -587,6 +588,7 @@ func runC01(c *Ctx) {
 			}
 		}
 	}
+	c01UnreadableChunkOuts(c, specs, results, parallel)
 	r.note("total %.1fs; shrinks performed: %d", time.Since(start).Seconds(), shrinks)
 }
 
@@ -646,4 +648,93 @@ func init() {
 			}
 		}
 	})
+}
+
+// c01UnreadableChunkOuts: "a join receives the chunk outputs complete and in
+// chunk order" when one chunk's `_outs` cannot be read at join-preparation
+// time (the chunk wrote truncated JSON).  Re-runs completed programs that have
+// a splitting fork with >= 2 chunks, with that fault injected into one chunk.
+// Oracle: either the pipestance fails, or every join that was launched got a
+// `_chunk_outs` with exactly one entry per chunk, equal to the chunks' outs in
+// chunk order.
+func c01UnreadableChunkOuts(c *Ctx, specs []*TASpec, results []*C01RunResult, parallel int) {
+	r := c.Res
+	limit := 24
+	if c.Thorough {
+		limit = 200
+	}
+	var fspecs []*TASpec
+	seen := map[string]bool{}
+	for i, res := range results {
+		if len(fspecs) >= limit {
+			break
+		}
+		if res == nil || res.Final != "complete" || seen[specs[i].Src] {
+			continue
+		}
+		// chunk jobs per fork
+		byFork := map[string][]*c01Job{}
+		for _, j := range res.Jobs {
+			if m := c01ChunkRe.FindStringSubmatch(j.Fqname); m != nil && j.Shell == "main" {
+				ff := j.Fqname[:len(j.Fqname)-len(m[0])]
+				byFork[ff] = append(byFork[ff], j)
+			}
+		}
+		var cands []*c01Job
+		for _, j := range res.Jobs {
+			if j.Shell == "join" {
+				if cs := byFork[j.Fqname]; len(cs) >= 2 {
+					cands = append(cands, cs[c.Rng.Intn(len(cs)-1)]) // not the last: the shift is visible
+				}
+			}
+		}
+		if len(cands) == 0 {
+			continue
+		}
+		seen[specs[i].Src] = true
+		victim := cands[c.Rng.Intn(len(cands))]
+		sp := *specs[i]
+		sp.Name += "+badouts:" + victim.Key
+		sp.Faults = []*Fault{{JobKey: victim.Key, Kind: "badouts"}}
+		fspecs = append(fspecs, &sp)
+	}
+	if len(fspecs) == 0 {
+		return
+	}
+	fres := c01RunSpecs(fspecs, parallel)
+	for i, res := range fres {
+		r.count("badouts|"+fspecs[i].Src+"|"+fspecs[i].Faults[0].JobKey, true)
+		if res.Final != "complete" {
+			r.hist("unreadable-chunk-outs:" + strings.SplitN(res.Final, ":", 2)[0])
+			continue
+		}
+		// completed: every join must have seen all of its chunks
+		bad := ""
+		nch := map[string]int{}
+		for _, j := range res.Jobs {
+			if m := c01ChunkRe.FindStringSubmatch(j.Fqname); m != nil && j.Shell == "main" {
+				nch[j.Fqname[:len(j.Fqname)-len(m[0])]]++
+			}
+		}
+		for _, j := range res.Jobs {
+			if j.Shell != "join" {
+				continue
+			}
+			var co []json.RawMessage
+			if json.Unmarshal(j.ChunkOuts, &co) != nil || len(co) != nch[j.Fqname] {
+				bad = fmt.Sprintf("%s: _chunk_outs has %d entries for %d chunks: %s", j.Key, len(co), nch[j.Fqname], c01Trunc(string(j.ChunkOuts), 300))
+				break
+			}
+		}
+		if bad == "" {
+			bad = "the pipestance completed although the outs of chunk " + fspecs[i].Faults[0].JobKey + " were unreadable"
+		}
+		r.hist("unreadable-chunk-outs:complete")
+		sp := *fspecs[i]
+		sp.Src = ""
+		r.violate(Violation{Kind: "property", Key: "C01:join-with-incomplete-chunk-outs",
+			What:  "one chunk wrote unreadable `_outs`; the pipestance neither failed nor gave the join one entry per chunk: " + bad,
+			Input: map[string]interface{}{"program": fspecs[i].Src, "name": fspecs[i].Name, "schedule": sp, "fault": fspecs[i].Faults[0]},
+			Impl:  map[string]interface{}{"final": res.Final, "top_outs": string(res.TopOuts)}})
+	}
 }
